@@ -83,4 +83,411 @@ theorem pad2_hours (h : Nat) (hh : h < 1000) : padMin 2 h = W.hoursText h := by
 theorem pad4_year (y : Nat) (h : y ≤ 9999) : padMin 4 y = digitsN 4 y :=
   padMin_eq_digitsN 4 y (by omega) (by omega)
 
+/-! ### decimal-coded fields -/
+
+theorem dec3_1 (a b c : Nat) (hb : b < 100) (hc : c < 100) : (a * 10000 + b * 100 + c) / 10000 = a := by omega
+theorem dec3_2 (a b c : Nat) (hb : b < 100) (hc : c < 100) : (a * 10000 + b * 100 + c) % 10000 / 100 = b := by omega
+theorem dec3_3 (a b c : Nat) (hc : c < 100) : (a * 10000 + b * 100 + c) % 100 = c := by omega
+
+theorem dt_split (D T : Nat) (hD : D ≤ 99991231) (hT : T ≤ 235959) :
+    (D * 1000000 + T) % 256 ^ 8 = D * 1000000 + T ∧ (D * 1000000 + T) / 1000000 = D ∧
+    (D * 1000000 + T) % 1000000 = T := by
+  refine ⟨?_, ?_, ?_⟩
+  · apply Nat.mod_eq_of_lt; omega
+  · omega
+  · omega
+
+/-! ### bit-packed fields (DATETIME2 / TIME2) -/
+
+theorem subU64_off (v : Nat) (hv : v < 2 ^ 39) :
+    subU64 ((v + 0x8000000000) % 256 ^ 5) 0x8000000000 = v := by
+  have e : (v + 0x8000000000) % 256 ^ 5 = v + 0x8000000000 := Nat.mod_eq_of_lt (by omega)
+  rw [e]
+  unfold subU64
+  omega
+
+theorem dt2_bound (y mo d h mi s : Nat) (hy : y ≤ 9999) (hmo : mo ≤ 12) (hd : d ≤ 31) (hh : h ≤ 23)
+    (hmi : mi ≤ 59) (hs : s ≤ 59) : ((((y * 13 + mo) * 32 + d) * 32 + h) * 64 + mi) * 64 + s < 2 ^ 39 := by
+  omega
+
+theorem dt2_hi (ymd h mi s : Nat) (hh : h ≤ 23) (hmi : mi ≤ 59) (hs : s ≤ 59) :
+    (((ymd * 32 + h) * 64 + mi) * 64 + s) / 2 ^ 17 = ymd := by omega
+
+theorem dt2_lo (ymd h mi s : Nat) (hh : h ≤ 23) (hmi : mi ≤ 59) (hs : s ≤ 59) :
+    (((ymd * 32 + h) * 64 + mi) * 64 + s) % 2 ^ 17 = (h * 64 + mi) * 64 + s := by omega
+
+theorem hms_h (h mi s : Nat) (hmi : mi ≤ 59) (hs : s ≤ 59) :
+    ((h * 64 + mi) * 64 + s) / 4096 = h := by omega
+theorem hms_m (h mi s : Nat) (hmi : mi ≤ 59) (hs : s ≤ 59) :
+    ((h * 64 + mi) * 64 + s) / 64 % 64 = mi := by omega
+theorem hms_s (h mi s : Nat) (hs : s ≤ 59) :
+    ((h * 64 + mi) * 64 + s) % 64 = s := by omega
+
+theorem ymd_y (y mo d : Nat) (hmo : mo ≤ 12) (hd : d ≤ 31) : ((y * 13 + mo) * 32 + d) / 32 / 13 = y := by omega
+theorem ymd_m (y mo d : Nat) (hmo : mo ≤ 12) (hd : d ≤ 31) : ((y * 13 + mo) * 32 + d) / 32 % 13 = mo := by omega
+theorem ymd_d (y mo d : Nat) (hd : d ≤ 31) : ((y * 13 + mo) * 32 + d) % 32 = d := by omega
+
+/-! ### the fraction bytes shared by TIMESTAMP2 / DATETIME2 -/
+
+theorem fracSuffix_spec (a rest : Bytes) (pos fsp frac : Nat) (hp : pos = a.length) (hf : fsp ≤ 6)
+    (hfr : frac < 10 ^ fsp) :
+    fracSuffix (a ++ (ofBE (W.fracBytes fsp) (W.fracStored fsp frac) ++ rest)) pos fsp
+      = .ok (W.fracText fsp frac, (fsp + 1) / 2) := by
+  have hc : fsp = 0 ∨ fsp = 1 ∨ fsp = 2 ∨ fsp = 3 ∨ fsp = 4 ∨ fsp = 5 ∨ fsp = 6 := by omega
+  rcases hc with rfl | rfl | rfl | rfl | rfl | rfl | rfl
+  · simp [fracSuffix, W.fracText]
+  · have e : (frac * 10) % 256 ^ 1 / 10 = frac := by omega
+    simp only [fracSuffix, W.fracBytes, W.fracStored, W.fracText, beIdx_mid a rest pos _ _ hp, if_true,
+      Res.ok_bind, Res.pure_eq, Nat.reduceAdd, Nat.reduceDiv, Nat.reduceMod, e,
+      padMin_eq_digitsN 1 frac hfr (by omega)]
+    simp
+  · have e : frac % 256 = frac := by omega
+    simp only [fracSuffix, W.fracBytes, W.fracStored, W.fracText, beIdx_mid a rest pos _ _ hp, if_true,
+      Res.ok_bind, Res.pure_eq, Nat.reduceAdd, Nat.reduceDiv, Nat.reduceMod,]
+    simp
+    rw [e]; exact padMin_eq_digitsN 2 frac hfr (by omega)
+  · have e : (frac * 10) % 256 ^ 2 / 10 = frac := by omega
+    simp only [fracSuffix, W.fracBytes, W.fracStored, W.fracText, beIdx_mid a rest pos _ _ hp, if_true,
+      Res.ok_bind, Res.pure_eq, Nat.reduceAdd, Nat.reduceDiv, Nat.reduceMod, e,
+      padMin_eq_digitsN 3 frac hfr (by omega)]
+    simp
+  · have e : frac % 65536 = frac := by omega
+    simp only [fracSuffix, W.fracBytes, W.fracStored, W.fracText, beIdx_mid a rest pos _ _ hp, if_true,
+      Res.ok_bind, Res.pure_eq, Nat.reduceAdd, Nat.reduceDiv, Nat.reduceMod,]
+    simp
+    rw [e]; exact padMin_eq_digitsN 4 frac hfr (by omega)
+  · have e : (frac * 10) % 256 ^ 3 / 10 = frac := by omega
+    simp only [fracSuffix, W.fracBytes, W.fracStored, W.fracText, beIdx_mid a rest pos _ _ hp, if_true,
+      Res.ok_bind, Res.pure_eq, Nat.reduceAdd, Nat.reduceDiv, Nat.reduceMod, e,
+      padMin_eq_digitsN 5 frac hfr (by omega)]
+    simp
+  · have e : frac % 16777216 = frac := by omega
+    simp only [fracSuffix, W.fracBytes, W.fracStored, W.fracText, beIdx_mid a rest pos _ _ hp, if_true,
+      Res.ok_bind, Res.pure_eq, Nat.reduceAdd, Nat.reduceDiv, Nat.reduceMod,]
+    simp
+    rw [e]; exact padMin_eq_digitsN 6 frac hfr (by omega)
+
+
+
+/-! ### the branch of `cellBytes` taken for each temporal type code -/
+
+theorem date_body (E : Ext) (typ md : Nat) (ht : typ = 10 ∨ typ = 14) (u : Bool) (data : Bytes) :
+    cellBytes E data 0 typ md u = (do
+    let v ← leIdx data 0 3
+    pure (padMin 4 (v / 512) ++ [45] ++ padMin 2 (v / 32 % 16) ++ [45] ++ padMin 2 (v % 32), 3)) := by
+  unfold cellBytes
+  rcases ht with rfl | rfl <;> simp only [Nat.reduceEqDiff, or_true, true_or, ↓reduceIte]
+
+theorem timestamp_body (E : Ext) (md : Nat) (u : Bool) (data : Bytes) :
+    cellBytes E data 0 7 md u = (do
+    let v ← readLE data 0 4
+    pure (printTimestamp E v, 4)) := by
+  unfold cellBytes
+  simp only [Nat.reduceEqDiff, ↓reduceIte]
+
+theorem time_old_body (E : Ext) (md : Nat) (u : Bool) (data : Bytes) :
+    cellBytes E data 0 11 md u = (do
+    let b2 ← data.get 2
+    let v ← leIdx data 0 3
+    let neg := b2.toNat ≥ 128
+    let a := if neg then 2 ^ 24 - v else v
+    pure ((if neg then [45] else []) ++ padMin 2 (a / 10000) ++ [58] ++ padMin 2 (a % 10000 / 100) ++ [58]
+            ++ padMin 2 (a % 100), 3)) := by
+  unfold cellBytes
+  simp only [Nat.reduceEqDiff, or_self, ↓reduceIte, Nat.zero_add]
+
+theorem datetime_old_body (E : Ext) (md : Nat) (u : Bool) (data : Bytes) :
+    cellBytes E data 0 12 md u = (do
+    let v ← readLE data 0 8
+    let d := v / 1000000
+    let t := v % 1000000
+    pure (padMin 4 (d / 10000) ++ [45] ++ padMin 2 (d % 10000 / 100) ++ [45] ++ padMin 2 (d % 100) ++ [32]
+            ++ padMin 2 (t / 10000) ++ [58] ++ padMin 2 (t % 10000 / 100) ++ [58] ++ padMin 2 (t % 100), 8)) := by
+  unfold cellBytes
+  simp only [Nat.reduceEqDiff, or_self, ↓reduceIte]
+
+theorem datetime2_body (E : Ext) (md : Nat) (u : Bool) (data : Bytes) :
+    cellBytes E data 0 18 md u = (do
+    let raw ← beIdx data 0 5
+    let ymdhms := subU64 raw 0x8000000000
+    let ymd := ymdhms / 2 ^ 17
+    let ym := ymd / 32
+    let hms := ymdhms % 2 ^ 17
+    let txt := padMin 4 (ym / 13) ++ [45] ++ padMin 2 (ym % 13) ++ [45] ++ padMin 2 (ymd % 32) ++ [32]
+                ++ padMin 2 (hms / 4096) ++ [58] ++ padMin 2 (hms / 64 % 64) ++ [58] ++ padMin 2 (hms % 64)
+    let (fr, n) ← fracSuffix data 5 md
+    pure (txt ++ fr, 5 + n)) := by
+  unfold cellBytes
+  simp only [Nat.reduceEqDiff, or_self, ↓reduceIte, Nat.zero_add]
+
+theorem timestamp2_body (E : Ext) (md : Nat) (u : Bool) (data : Bytes) :
+    cellBytes E data 0 17 md u = (do
+    let sec ← readBE data 0 4
+    let (fr, n) ← fracSuffix data 4 md
+    pure (printTimestamp E sec ++ fr, 4 + n)) := by
+  unfold cellBytes
+  simp only [Nat.reduceEqDiff, or_self, ↓reduceIte, Nat.zero_add]
+
+theorem time2_body (E : Ext) (md : Nat) (u : Bool) (data : Bytes) :
+    cellBytes E data 0 19 md u = (do
+    let raw ← beIdx data 0 3
+    let neg := raw < 0x800000
+    let hms0 := if neg then 0x800000 - raw else raw - 0x800000
+    let w := if md = 1 ∨ md = 2 then 1 else if md = 3 ∨ md = 4 then 2 else if md = 5 ∨ md = 6 then 3 else 0
+    let fr0 ← beIdx data 3 w
+    let borrow := neg ∧ fr0 ≠ 0 ∧ w ≠ 0
+    let hms := if borrow then hms0 - 1 else hms0
+    let fr := if borrow then 256 ^ w - fr0 else fr0
+    let fracStr : Bytes :=
+      if md = 1 then [46] ++ padMin 1 (fr / 10) else if md = 2 then [46] ++ padMin 2 fr
+      else if md = 3 then [46] ++ padMin 3 (fr / 10) else if md = 4 then [46] ++ padMin 4 fr
+      else if md = 5 then [46] ++ padMin 5 (fr / 10) else if md = 6 then [46] ++ padMin 6 fr else []
+    pure ((if neg then [45] else []) ++ padMin 2 (hms / 4096 % 1024) ++ [58] ++ padMin 2 (hms / 64 % 64) ++ [58]
+            ++ padMin 2 (hms % 64) ++ fracStr, 3 + (md + 1) / 2)) := by
+  unfold cellBytes
+  simp only [Nat.reduceEqDiff, or_self, ↓reduceIte, Nat.zero_add]
+
+
+/-! ### TIME2 -/
+
+theorem time2_arith (B hms fs v raw fr0 : Nat) (neg : Bool) (hB : B = 1 ∨ B = 256 ∨ B = 65536 ∨ B = 16777216)
+    (hhms : hms < 2 ^ 22) (hfs : fs < B) (hz : neg = true → hms + fs ≠ 0)
+    (hv : v = if neg = true then 0x800000 * B - (hms * B + fs) else 0x800000 * B + (hms * B + fs))
+    (hraw : raw = v / B % 256 ^ 3) (hfr : fr0 = v % B) :
+    (raw < 0x800000 ↔ neg = true) ∧
+    (if raw < 0x800000 ∧ fr0 ≠ 0 then (if raw < 0x800000 then 0x800000 - raw else raw - 0x800000) - 1
+      else (if raw < 0x800000 then 0x800000 - raw else raw - 0x800000)) = hms ∧
+    (if raw < 0x800000 ∧ fr0 ≠ 0 then B - fr0 else fr0) = fs := by
+  cases neg with
+  | false =>
+    simp only [Bool.false_eq_true, if_false] at hv
+    have h1 : raw = 0x800000 + hms ∧ fr0 = fs := by
+      rcases hB with rfl | rfl | rfl | rfl <;> omega
+    obtain ⟨rfl, rfl⟩ := h1
+    have hn : ¬ (8388608 + hms < 8388608) := by omega
+    simp [hn]
+  | true =>
+    simp only [if_true] at hv
+    have hp : hms + fs ≠ 0 := hz rfl
+    by_cases hf0 : fs = 0
+    · subst hf0
+      have h1 : raw = 0x800000 - hms ∧ fr0 = 0 := by
+        rcases hB with rfl | rfl | rfl | rfl <;> omega
+      obtain ⟨rfl, rfl⟩ := h1
+      have hn : 8388608 - hms < 8388608 := by omega
+      simp [hn]; omega
+    · have h1 : raw = 0x800000 - hms - 1 ∧ fr0 = B - fs := by
+        rcases hB with rfl | rfl | rfl | rfl <;> omega
+      obtain ⟨rfl, rfl⟩ := h1
+      have hn : 8388608 - hms - 1 < 8388608 := by omega
+      have hn2 : B - fs ≠ 0 := by omega
+      simp [hn, hn2]; omega
+
+theorem time2_read (fb v : Nat) (rest : Bytes) :
+    beIdx (ofBE (3 + fb) v ++ rest) 0 3 = .ok (v / 256 ^ fb % 256 ^ 3) ∧
+    beIdx (ofBE (3 + fb) v ++ rest) 3 fb = .ok (v % 256 ^ fb) := by
+  rw [ofBE_add, List.append_assoc]
+  exact ⟨beIdx_head _ 3 _, beIdx_mid (ofBE 3 _) rest 3 fb v (by simp)⟩
+
+theorem time2_w (fsp : Nat) (hf : fsp ≤ 6) :
+    (if fsp = 1 ∨ fsp = 2 then 1 else if fsp = 3 ∨ fsp = 4 then 2 else if fsp = 5 ∨ fsp = 6 then 3 else 0)
+      = W.fracBytes fsp := by
+  have hc : fsp = 0 ∨ fsp = 1 ∨ fsp = 2 ∨ fsp = 3 ∨ fsp = 4 ∨ fsp = 5 ∨ fsp = 6 := by omega
+  rcases hc with rfl | rfl | rfl | rfl | rfl | rfl | rfl <;> rfl
+
+theorem time2_frac (fsp frac : Nat) (hf : fsp ≤ 6) (hfr : frac < 10 ^ fsp) :
+    (if fsp = 1 then [46] ++ padMin 1 (W.fracStored fsp frac / 10) else if fsp = 2 then [46] ++ padMin 2 (W.fracStored fsp frac)
+      else if fsp = 3 then [46] ++ padMin 3 (W.fracStored fsp frac / 10) else if fsp = 4 then [46] ++ padMin 4 (W.fracStored fsp frac)
+      else if fsp = 5 then [46] ++ padMin 5 (W.fracStored fsp frac / 10) else if fsp = 6 then [46] ++ padMin 6 (W.fracStored fsp frac)
+      else ([] : Bytes)) = W.fracText fsp frac := by
+  have hc : fsp = 0 ∨ fsp = 1 ∨ fsp = 2 ∨ fsp = 3 ∨ fsp = 4 ∨ fsp = 5 ∨ fsp = 6 := by omega
+  rcases hc with rfl | rfl | rfl | rfl | rfl | rfl | rfl
+  · rfl
+  · have e : frac * 10 / 10 = frac := by omega
+    simp [W.fracStored, W.fracText, e, padMin_eq_digitsN 1 frac hfr]
+  · simp [W.fracStored, W.fracText, padMin_eq_digitsN 2 frac hfr]
+  · have e : frac * 10 / 10 = frac := by omega
+    simp [W.fracStored, W.fracText, e, padMin_eq_digitsN 3 frac hfr]
+  · simp [W.fracStored, W.fracText, padMin_eq_digitsN 4 frac hfr]
+  · have e : frac * 10 / 10 = frac := by omega
+    simp [W.fracStored, W.fracText, e, padMin_eq_digitsN 5 frac hfr]
+  · simp [W.fracStored, W.fracText, padMin_eq_digitsN 6 frac hfr]
+
+theorem time2_stored_lt (fsp frac : Nat) (hf : fsp ≤ 6) (hfr : frac < 10 ^ fsp) :
+    W.fracStored fsp frac < 256 ^ W.fracBytes fsp ∧
+    (256 ^ W.fracBytes fsp = 1 ∨ 256 ^ W.fracBytes fsp = 256 ∨ 256 ^ W.fracBytes fsp = 65536 ∨
+      256 ^ W.fracBytes fsp = 16777216) := by
+  have hc : fsp = 0 ∨ fsp = 1 ∨ fsp = 2 ∨ fsp = 3 ∨ fsp = 4 ∨ fsp = 5 ∨ fsp = 6 := by omega
+  rcases hc with rfl | rfl | rfl | rfl | rfl | rfl | rfl <;>
+    simp [W.fracStored, W.fracBytes] at hfr ⊢ <;> omega
+
+/-- the pure tail of the TIME2 branch of `cellBytes`, as a function of the two values read -/
+def time2Out (md raw fr0 : Nat) : Bytes × Nat :=
+  let neg := raw < 0x800000
+  let hms0 := if neg then 0x800000 - raw else raw - 0x800000
+  let w := if md = 1 ∨ md = 2 then 1 else if md = 3 ∨ md = 4 then 2 else if md = 5 ∨ md = 6 then 3 else 0
+  let borrow := neg ∧ fr0 ≠ 0 ∧ w ≠ 0
+  let hms := if borrow then hms0 - 1 else hms0
+  let fr := if borrow then 256 ^ w - fr0 else fr0
+  let fracStr : Bytes :=
+    if md = 1 then [46] ++ padMin 1 (fr / 10) else if md = 2 then [46] ++ padMin 2 fr
+    else if md = 3 then [46] ++ padMin 3 (fr / 10) else if md = 4 then [46] ++ padMin 4 fr
+    else if md = 5 then [46] ++ padMin 5 (fr / 10) else if md = 6 then [46] ++ padMin 6 fr else []
+  ((if neg then [45] else []) ++ padMin 2 (hms / 4096 % 1024) ++ [58] ++ padMin 2 (hms / 64 % 64) ++ [58]
+          ++ padMin 2 (hms % 64) ++ fracStr, 3 + (md + 1) / 2)
+
+theorem time2_body' (E : Ext) (md : Nat) (u : Bool) (data : Bytes) :
+    cellBytes E data 0 19 md u = (do
+    let raw ← beIdx data 0 3
+    let fr0 ← beIdx data 3
+      (if md = 1 ∨ md = 2 then 1 else if md = 3 ∨ md = 4 then 2 else if md = 5 ∨ md = 6 then 3 else 0)
+    pure (time2Out md raw fr0)) := by
+  rw [time2_body]; rfl
+
+theorem time2Out_spec (fsp raw fr0 hms frac : Nat) (neg : Bool) (hf : fsp ≤ 6) (hfr : frac < 10 ^ fsp)
+    (a1 : raw < 0x800000 ↔ neg = true)
+    (a2 : (if raw < 0x800000 ∧ fr0 ≠ 0 then (if raw < 0x800000 then 0x800000 - raw else raw - 0x800000) - 1
+      else (if raw < 0x800000 then 0x800000 - raw else raw - 0x800000)) = hms)
+    (a3 : (if raw < 0x800000 ∧ fr0 ≠ 0 then 256 ^ W.fracBytes fsp - fr0 else fr0) = W.fracStored fsp frac)
+    (hw : fr0 ≠ 0 → W.fracBytes fsp ≠ 0) :
+    time2Out fsp raw fr0 = ((if neg = true then [45] else []) ++ padMin 2 (hms / 4096 % 1024) ++ [58]
+      ++ padMin 2 (hms / 64 % 64) ++ [58] ++ padMin 2 (hms % 64) ++ W.fracText fsp frac, 3 + (fsp + 1) / 2) := by
+  have hiff : (raw < 0x800000 ∧ fr0 ≠ 0 ∧ W.fracBytes fsp ≠ 0) ↔ (raw < 0x800000 ∧ fr0 ≠ 0) :=
+    ⟨fun ⟨x, y, _⟩ => ⟨x, y⟩, fun ⟨x, y⟩ => ⟨x, y, hw y⟩⟩
+  unfold time2Out
+  simp only [time2_w fsp hf, hiff]
+  simp only [a2, a3]
+  simp only [time2_frac fsp frac hf hfr, a1]
+
+
+/-! ### the proleptic Gregorian calendar: civil_from_days ∘ days_from_civil = id -/
+
+theorem civil_yoe_c0 (yoe doy : Int) (h0 : 0 ≤ yoe) (h1 : yoe ≤ 99) (hd0 : 0 ≤ doy)
+    (hd : doy ≤ 364 ∨ (doy = 365 ∧ yoe % 4 = 3 ∧ yoe ≠ 99)) :
+    let doe := yoe * 365 + yoe / 4 - yoe / 100 + doy
+    0 ≤ doe ∧ doe ≤ 146096 ∧ (doe - doe / 1460 + doe / 36524 - doe / 146096) / 365 = yoe := by
+  intro doe
+  have e1 : yoe / 100 = 0 := by omega
+  have e2 : doe = yoe * 365 + yoe / 4 - 0 + doy := by omega
+  have e3 : doe / 36524 = 0 := by omega
+  have e4 : doe / 146096 = 0 := by omega
+  rw [e3, e4]
+  omega
+
+theorem civil_yoe_c1 (yoe doy : Int) (h0 : 100 ≤ yoe) (h1 : yoe ≤ 199) (hd0 : 0 ≤ doy)
+    (hd : doy ≤ 364 ∨ (doy = 365 ∧ yoe % 4 = 3 ∧ yoe ≠ 199)) :
+    let doe := yoe * 365 + yoe / 4 - yoe / 100 + doy
+    0 ≤ doe ∧ doe ≤ 146096 ∧ (doe - doe / 1460 + doe / 36524 - doe / 146096) / 365 = yoe := by
+  intro doe
+  have e1 : yoe / 100 = 1 := by omega
+  have e2 : doe = yoe * 365 + yoe / 4 - 1 + doy := by omega
+  have e3 : doe / 36524 = 1 := by omega
+  have e4 : doe / 146096 = 0 := by omega
+  rw [e3, e4]
+  omega
+
+theorem civil_yoe_c2 (yoe doy : Int) (h0 : 200 ≤ yoe) (h1 : yoe ≤ 299) (hd0 : 0 ≤ doy)
+    (hd : doy ≤ 364 ∨ (doy = 365 ∧ yoe % 4 = 3 ∧ yoe ≠ 299)) :
+    let doe := yoe * 365 + yoe / 4 - yoe / 100 + doy
+    0 ≤ doe ∧ doe ≤ 146096 ∧ (doe - doe / 1460 + doe / 36524 - doe / 146096) / 365 = yoe := by
+  intro doe
+  have e1 : yoe / 100 = 2 := by omega
+  have e2 : doe = yoe * 365 + yoe / 4 - 2 + doy := by omega
+  have e3 : doe / 36524 = 2 := by omega
+  have e4 : doe / 146096 = 0 := by omega
+  rw [e3, e4]
+  omega
+
+theorem civil_yoe_c3 (yoe doy : Int) (h0 : 300 ≤ yoe) (h1 : yoe ≤ 399) (hd0 : 0 ≤ doy)
+    (hd : doy ≤ 364 ∨ (doy = 365 ∧ yoe % 4 = 3)) :
+    let doe := yoe * 365 + yoe / 4 - yoe / 100 + doy
+    0 ≤ doe ∧ doe ≤ 146096 ∧ (doe - doe / 1460 + doe / 36524 - doe / 146096) / 365 = yoe := by
+  intro doe
+  have e1 : yoe / 100 = 3 := by omega
+  have e2 : doe = yoe * 365 + yoe / 4 - 3 + doy := by omega
+  have e3 : doe / 36524 = 3 ∨ (doe / 36524 = 4 ∧ yoe = 399 ∧ doy = 365) := by omega
+  have e4 : doe / 146096 = 0  ∨ (doe / 146096 = 1 ∧ yoe = 399 ∧ doy = 365) := by omega
+  omega
+
+/-- the year-of-era recovery step of civil_from_days -/
+theorem civil_yoe (yoe doy : Int) (h0 : 0 ≤ yoe) (h1 : yoe ≤ 399) (hd0 : 0 ≤ doy)
+    (hd : doy ≤ 364 ∨ (doy = 365 ∧ yoe % 4 = 3 ∧ (yoe % 100 ≠ 99 ∨ yoe = 399))) :
+    let doe := yoe * 365 + yoe / 4 - yoe / 100 + doy
+    0 ≤ doe ∧ doe ≤ 146096 ∧ (doe - doe / 1460 + doe / 36524 - doe / 146096) / 365 = yoe := by
+  have hc : yoe ≤ 99 ∨ (100 ≤ yoe ∧ yoe ≤ 199) ∨ (200 ≤ yoe ∧ yoe ≤ 299) ∨ 300 ≤ yoe := by omega
+  rcases hc with hc | ⟨hc, hc'⟩ | ⟨hc, hc'⟩ | hc
+  · exact civil_yoe_c0 yoe doy h0 hc hd0 (by omega)
+  · exact civil_yoe_c1 yoe doy hc hc' hd0 (by omega)
+  · exact civil_yoe_c2 yoe doy hc hc' hd0 (by omega)
+  · exact civil_yoe_c3 yoe doy hc h1 hd0 (by omega)
+
+/-- civil_from_days undoes "era·146097 + day-of-era − 719468" -/
+theorem civilOfDays_inv (era yoe doy : Int) (h0 : 0 ≤ yoe) (h1 : yoe ≤ 399) (hd0 : 0 ≤ doy)
+    (hd : doy ≤ 364 ∨ (doy = 365 ∧ yoe % 4 = 3 ∧ (yoe % 100 ≠ 99 ∨ yoe = 399))) :
+    civilOfDays (era * 146097 + (yoe * 365 + yoe / 4 - yoe / 100 + doy) - 719468) =
+      (if (if (5 * doy + 2) / 153 < 10 then (5 * doy + 2) / 153 + 3 else (5 * doy + 2) / 153 - 9) ≤ 2
+        then yoe + era * 400 + 1 else yoe + era * 400,
+       if (5 * doy + 2) / 153 < 10 then (5 * doy + 2) / 153 + 3 else (5 * doy + 2) / 153 - 9,
+       doy - (153 * ((5 * doy + 2) / 153) + 2) / 5 + 1) := by
+  obtain ⟨a, b, c⟩ := civil_yoe yoe doy h0 h1 hd0 hd
+  unfold civilOfDays
+  generalize hg : yoe * 365 + yoe / 4 - yoe / 100 + doy = doe at a b c
+  have hz : era * 146097 + doe - 719468 + 719468 = era * 146097 + doe := by omega
+  have he : (era * 146097 + doe) / 146097 = era := by omega
+  have hdoe : era * 146097 + doe - era * 146097 = doe := by omega
+  have hdoy : doe - (365 * yoe + yoe / 4 - yoe / 100) = doy := by omega
+  simp only [hz, he, hdoe, c, hdoy]
+
+/-- day-of-shifted-year → month index (March = 0 … February = 11) -/
+theorem month_inv (mp d : Int) (hd1 : 1 ≤ d)
+    (h : (mp = 0 ∧ d ≤ 31) ∨ (mp = 1 ∧ d ≤ 30) ∨ (mp = 2 ∧ d ≤ 31) ∨ (mp = 3 ∧ d ≤ 30) ∨ (mp = 4 ∧ d ≤ 31) ∨
+      (mp = 5 ∧ d ≤ 31) ∨ (mp = 6 ∧ d ≤ 30) ∨ (mp = 7 ∧ d ≤ 31) ∨ (mp = 8 ∧ d ≤ 30) ∨ (mp = 9 ∧ d ≤ 31) ∨
+      (mp = 10 ∧ d ≤ 31) ∨ (mp = 11 ∧ d ≤ 29)) :
+    (5 * ((153 * mp + 2) / 5 + d - 1) + 2) / 153 = mp ∧ 0 ≤ (153 * mp + 2) / 5 + d - 1 ∧
+      ((153 * mp + 2) / 5 + d - 1 ≤ 364 ∨ (mp = 11 ∧ d = 29 ∧ (153 * mp + 2) / 5 + d - 1 = 365)) := by
+  rcases h with ⟨rfl, h⟩ | ⟨rfl, h⟩ | ⟨rfl, h⟩ | ⟨rfl, h⟩ | ⟨rfl, h⟩ | ⟨rfl, h⟩ | ⟨rfl, h⟩ | ⟨rfl, h⟩ | ⟨rfl, h⟩ |
+    ⟨rfl, h⟩ | ⟨rfl, h⟩ | ⟨rfl, h⟩ <;> omega
+
+/-- months March..December: the shifted year is `y`, month index m-3 (the argument is `daysOfCivil y m d`
+    with its `if`s resolved) -/
+theorem roundtrip_late (y m d : Int) (hm : 3 ≤ m ∧ m ≤ 12) (hd1 : 1 ≤ d)
+    (hd : d ≤ (if m = 4 ∨ m = 6 ∨ m = 9 ∨ m = 11 then 30 else 31)) :
+    civilOfDays (y / 400 * 146097 + ((y - y / 400 * 400) * 365 + (y - y / 400 * 400) / 4
+      - (y - y / 400 * 400) / 100 + ((153 * (m - 3) + 2) / 5 + d - 1)) - 719468) = (y, m, d) := by
+  have hmc : m = 3 ∨ m = 4 ∨ m = 5 ∨ m = 6 ∨ m = 7 ∨ m = 8 ∨ m = 9 ∨ m = 10 ∨ m = 11 ∨ m = 12 := by omega
+  obtain ⟨e1, e2, e3⟩ := month_inv (m - 3) d hd1
+    (by rcases hmc with rfl | rfl | rfl | rfl | rfl | rfl | rfl | rfl | rfl | rfl <;> simp at hd <;> omega)
+  have h1 : ¬ (m ≤ 2) := by omega
+  rw [civilOfDays_inv (y / 400) (y - y / 400 * 400) ((153 * (m - 3) + 2) / 5 + d - 1) (by omega) (by omega)
+    e2 (by omega), e1]
+  have e4 : (if m - 3 < 10 then m - 3 + 3 else m - 3 - 9) = m := by rw [if_pos (by omega)]; omega
+  have e5 : y - y / 400 * 400 + y / 400 * 400 = y := by omega
+  have e6 : (153 * (m - 3) + 2) / 5 + d - 1 - (153 * (m - 3) + 2) / 5 + 1 = d := by omega
+  rw [e4, if_neg h1, e5, e6]
+
+/-- January / February: the shifted year is `y-1`, month index m+9 -/
+theorem roundtrip_early (y m d : Int) (hm : 1 ≤ m ∧ m ≤ 2) (hd1 : 1 ≤ d)
+    (hd : d ≤ (if m = 2 then (if y % 4 = 0 ∧ (y % 100 ≠ 0 ∨ y % 400 = 0) then 29 else 28) else 31)) :
+    civilOfDays ((y - 1) / 400 * 146097 + ((y - 1 - (y - 1) / 400 * 400) * 365 + (y - 1 - (y - 1) / 400 * 400) / 4
+      - (y - 1 - (y - 1) / 400 * 400) / 100 + ((153 * (m + 9) + 2) / 5 + d - 1)) - 719468) = (y, m, d) := by
+  have hmc : m = 1 ∨ m = 2 := by omega
+  obtain ⟨e1, e2, e3⟩ := month_inv (m + 9) d hd1
+    (by rcases hmc with rfl | rfl <;> simp at hd <;> (try split at hd) <;> omega)
+  have h1 : m ≤ 2 := by omega
+  rw [civilOfDays_inv ((y - 1) / 400) (y - 1 - (y - 1) / 400 * 400) ((153 * (m + 9) + 2) / 5 + d - 1)
+    (by omega) (by omega) e2 ?leap, e1]
+  case leap =>
+    rcases e3 with e3 | ⟨e3, e3', e3''⟩
+    · exact Or.inl e3
+    · have : m = 2 := by omega
+      subst this; subst e3'
+      simp at hd
+      split at hd
+      · right; omega
+      · omega
+  have e4 : (if m + 9 < 10 then m + 9 + 3 else m + 9 - 9) = m := by rw [if_neg (by omega)]; omega
+  have e5 : y - 1 - (y - 1) / 400 * 400 + (y - 1) / 400 * 400 + 1 = y := by omega
+  have e6 : (153 * (m + 9) + 2) / 5 + d - 1 - (153 * (m + 9) + 2) / 5 + 1 = d := by omega
+  rw [e4, if_pos h1, e5, e6]
+
 end GV
